@@ -1,6 +1,6 @@
 (* C08 - connection close handshake.
    This file only pins statements. *)
-From Amq Require Import Lib.Base Gen.Consts Model.Wire Model.Frames Model.OutBuf Model.Collector Model.Slots Model.Core Spec.Slots Spec.Content Proofs.Slots Proofs.OutBuf Proofs.Collector Proofs.CoreContent Proofs.CoreInv Proofs.CoreMore.
+From Amq Require Import Lib.Base Gen.Consts Model.Wire Model.Frames Model.OutBuf Model.Collector Model.Slots Model.Core Spec.Slots Spec.Content Proofs.Slots Proofs.OutBuf Proofs.Collector Proofs.CoreContent Proofs.CoreInv Proofs.CoreMore Check.Core Proofs.Examples.
 
 (* the client's Connection.Close is appended behind everything queued before and the buffer is sealed in the same step *)
 Theorem C08_client_close : forall (buf : bytes) (c : core), ob_sealed (c_out c) = false -> channel_message 0 (MsgConnClose buf) c = (OOk, seal (push_out c buf)) /\ ob (c_out (seal (push_out c buf))) = ob (c_out c) ++ buf /\ ob_sealed (c_out (seal (push_out c buf))) = true.
@@ -34,6 +34,15 @@ Proof. exact final_results. Qed.
 Theorem C08_close_ok_then_anything : forall (c : core) (fs : list dframe) (t : rterm) (o2 : outcome) (c2 : core), process_all c fs = (o2, c2) -> c_phase c2 = PClientClosed -> (forall site : N, o2 <> OPanic site) -> handle_event c (EvStream None (Some (fs, t))) = (OOk, c2, []).
 Proof. exact close_ok_then_anything. Qed.
 
+(* non-vacuity: a client close in a reachable state - the Close is queued and seals the buffer,
+   the server's CloseOk completes it: ClientClosed, done, result Ok, every queue told *)
+Example C08_example :
+  let c1 := snd (channel_message 0 (MsgConnClose [1; 2; 3]) ex_two_channels) in
+  let '(o, c2) := process c1 (FMethod 0 MConnCloseOk, []) in
+  (ob_sealed (c_out c1), o, is_done c2, final_result c2) = (true, OOk, DDone, OOk) /\
+  map fst (c_slots c2) = [].
+Proof. vm_compute. repeat split. Qed.
+
 Check C08_client_close : forall (buf : bytes) (c : core), ob_sealed (c_out c) = false -> channel_message 0 (MsgConnClose buf) c = (OOk, seal (push_out c buf)) /\ ob (c_out (seal (push_out c buf))) = ob (c_out c) ++ buf /\ ob_sealed (c_out (seal (push_out c buf))) = true.
 Check C08_sealed_drops : forall (n : N) (buf : bytes) (c : core), ob_sealed (c_out c) = true -> channel_message n (MsgSend buf) c = (OOk, c) /\ channel_message n (MsgConnClose buf) c = (OOk, c).
 Check C08_append_spec : forall (o : outbuf) (bs : bytes), ob (ob_append o bs) = (if ob_sealed o then ob o else ob o ++ bs) /\ ob_sealed (ob_append o bs) = ob_sealed o.
@@ -51,3 +60,4 @@ Print Assumptions C08_server_close.
 Print Assumptions C08_done.
 Print Assumptions C08_results.
 Print Assumptions C08_close_ok_then_anything.
+Print Assumptions C08_example.
